@@ -30,6 +30,16 @@ macro_rules! common_list {
             "shr_u8" => u8::try_from(s).ok().map(|k| a >> k),
             "shl_i16" => i16::try_from(s).ok().map(|k| a << k),
             "shr_i16" => i16::try_from(s).ok().map(|k| a >> k),
+            "shl_i8" => i8::try_from(s).ok().map(|k| a << k),
+            "shr_i8" => i8::try_from(s).ok().map(|k| a >> k),
+            "shl_u16" => u16::try_from(s).ok().map(|k| a << k),
+            "shr_u16" => u16::try_from(s).ok().map(|k| a >> k),
+            "shl_u64" => Some(a << (s as u64)),
+            "shr_u64" => Some(a >> (s as u64)),
+            "shl_i128" => Some(a << (s as i128)),
+            "shr_i128" => Some(a >> (s as i128)),
+            "shl_isize" => isize::try_from(s).ok().map(|k| a << k),
+            "shr_isize" => isize::try_from(s).ok().map(|k| a >> k),
             "rotl_then_rotr" => a.rotate_left(s).rotate_right(s),
             "rotr_then_rotl" => a.rotate_right(s).rotate_left(s),
         }
